@@ -136,6 +136,9 @@ class Serializer:
                 if q == default_prefix:
                     decl += ' xmlns="%s"' % sp.uri(q)
                     attrs_dom.append((("http://www.w3.org/2000/xmlns/", "xmlns"), sp.uri(q)))
+                    # attributes cannot use the default namespace: the prefix is declared as well
+                    decl += ' xmlns:%s="%s"' % (self.prefix(q), sp.uri(q))
+                    attrs_dom.append((("http://www.w3.org/2000/xmlns/", self.prefix(q)), sp.uri(q)))
                 else:
                     decl += ' xmlns:%s="%s"' % (self.prefix(q), sp.uri(q))
                     attrs_dom.append((("http://www.w3.org/2000/xmlns/", self.prefix(q)), sp.uri(q)))
